@@ -1,15 +1,17 @@
 """human-written part of MANIFEST.json"""
 HOOKS = {
-    "guard": "cfg(kani) (set only by the Kani compiler) together with the default-off cargo features verif-collections / verif-models of routee-compass-core",
-    "enable": "cargo kani sets cfg(kani); harness crates vh-core and vh-pt depend on routee-compass-core with features = [\"verif-models\"]; vh-app uses no feature (only the cfg(kani) constructors)",
+    "guard": "cfg(kani) (set only by the Kani compiler) together with the default-off cargo features verif-collections / verif-models / verif-step of routee-compass-core",
+    "enable": "cargo kani sets cfg(kani); harness crates vh-core and vh-pt depend on routee-compass-core with features = [\"verif-models\"], vh-loop with [\"verif-step\"] (+ env VERIF_A_STAR_STEP naming the file the source slicer generated); vh-app uses no feature (only the cfg(kani) constructors)",
     "baseline_off_cmd": "cd /repo/rust && cargo test --workspace --no-fail-fast --offline",
-    "source_commits": ["6e7b5e1", "fe4aab9", "0a84aa3", "1d6f7b2", "57a839d (reverted by 571d484)"],
+    "source_commits": ["6e7b5e1", "fe4aab9", "0a84aa3", "1d6f7b2", "57a839d (reverted by 571d484)", "f5830d0", "5814fd1", "2d7e60e"],
     "add_only": True,
 }
 NOTES = ("Every check is decided by CBMC (via Kani) over the compiled repository code; exit 2 = inconclusive "
          "(timeout / out of memory / build error / vacuous harness / counterexample that does not reproduce natively) and is "
          "never reported as success. See DESIGN.md.")
 TECH = "bounded model checking (Kani/CBMC SAT) of the real functions over symbolic inputs, counterexamples replayed natively"
+TECH_LOOP = ("; search loop: induction over loop iterations decided by Kani/CBMC SAT - the loop body of run_a_star is sliced from the current source "
+             "text and ONE iteration is symbolically executed from an arbitrary invariant-satisfying search state over an arbitrary small graph")
 CHECKS = {
     "C09": dict(
         text=("Every ordered unit pair of the six families is a harness instance; for each, CBMC decides over every finite f64 "
@@ -27,11 +29,13 @@ CHECKS["C10"] = dict(
     text=("For each limit kind CBMC decides, over every value of the limit and of the loop's counters, that the call the search loop makes before "
           "every pop returns the explicit 'terminated' error exactly when the documented predicate holds (iterations+1 > limit; tree size > limit; "
           "clock beyond the budget on a scheduled check, with the clock a symbolic monotone variable), never the internal 'unable to explain' error, "
-          "never a panic; combined models are the disjunction; the predicate is monotone in the limit. Kernel-level: the loop itself is not encoded."),
-    design_ref="DESIGN.md section 4, C10",
-    note=("Trusted: Instant::now stub (arbitrary non-decreasing readings), fmt::format stub, Instant layout transmute. Not decided: that run_a_star consults the "
-          "predicate on every turn, identity of limited/unlimited results, error mapping of combined models (String join intractable)."),
-    technique=TECH,
+          "never a panic; combined models are the disjunction; the predicate is monotone in the limit. Search loop, by induction over its iterations with an "
+          "iteration limit L (any L <= 2^20): the body is entered with iterations <= L, every completed iteration counts exactly one, an iteration entered with iterations >= L returns the "
+          "terminated error before anything is expanded - at most L expansion steps, and a limit that is hit is never turned into a route or 'no path'."),
+    design_ref="DESIGN.md sections 4 (C10) and 9",
+    note=("Trusted: Instant::now stub (arbitrary non-decreasing readings), fmt::format stub, Instant layout transmute; loop: hooks H1/H3/H4/H5. Not decided: solution-size and runtime limits "
+          "INSIDE the loop (only the iteration limit is instantiated there), identity of limited/unlimited results, error mapping of combined models (String join intractable), ksp sub-searches."),
+    technique=TECH + TECH_LOOP,
 )
 CHECKS["C13"] = dict(
     text=("CBMC decides for every f64 similarity value and threshold that the default accept-all setting classifies no alternative as too similar and that "
@@ -80,19 +84,26 @@ CHECKS["C12"] = dict(
 CHECKS["C04"] = dict(
     text=("For each restriction kind and each pair of vehicle / limit units CBMC decides over all quantities and limits that the edge is usable exactly when the "
           "vehicle quantity, converted with the PHYSICAL factor, does not exceed the limit (outside a 0.1 percent band), that zero axles never pass a per-axle limit, "
-          "and that a combined model permits an edge only if every inner model does (errors propagate, never 'usable')."),
-    design_ref="DESIGN.md section 4, C04",
-    note="Road-class, turn-restriction and per-edge restriction table lookups (std hash containers in the app crate), the edge-cut wrapper and the search loop are not covered.",
-    technique=TECH,
+          "and that a combined model permits an edge only if every inner model does (errors propagate, never 'usable'); an edge cut by an alternative-route search is never usable. "
+          "Search loop, by induction over its iterations: for restrictions that depend on the edge only, a forbidden edge is never traversed and never recorded in the tree, in any reachable state."),
+    design_ref="DESIGN.md sections 4 (C04) and 9",
+    note=("Road-class, turn-restriction and per-edge restriction table lookups (std hash containers in the app crate) are not covered; the loop induction covers edge-local restrictions only "
+          "(a mask per edge id) - restricted TURNS (dependence on the previous edge) are not covered by it. Loop bounds: graphs up to 2 vertices / 1 edge (quick), 4 vertices / 4 edges (thorough)."),
+    technique=TECH + TECH_LOOP,
 )
 CHECKS["C01"] = dict(
     text=("Two kernels of the property are decided: for ANY edge and both search directions the vertex a tree entry is keyed by is the far end and the recorded parent "
           "the near end of the recorded edge; and for an ARBITRARY edge table with an ARBITRARY consistent partial tree (cycles, gaps allowed) over 3-4 vertices the "
-          "backtrack returns exactly the contiguous, repeat-free origin-to-destination walk obtained by following parents, or an error - never a malformed route."),
-    design_ref="DESIGN.md section 4, C01",
-    note=("The core of the property - that the search loop only inserts consistent branches and never closes a parent cycle - is NOT decided (run_a_star could not be encoded); "
-          "edge-oriented wrappers and ksp route concatenation are not covered. Trusted: hook H1 table model for the tree."),
-    technique=TECH,
+          "backtrack returns exactly the contiguous, repeat-free origin-to-destination walk obtained by following parents, or an error - never a malformed route. "
+          "Search loop (vertex-oriented run_a_star), by induction over its iterations: in every state the loop reaches and in the returned tree, every entry records a permitted edge that "
+          "joins the recorded parent to the entry's vertex in search direction and the parent's cost is strictly smaller, so parents lead to the origin without revisiting a vertex."),
+    design_ref="DESIGN.md sections 4 (C01) and 9",
+    note=("The core of the property - that the search loop only inserts consistent branches and never closes a parent cycle - is decided by induction over the iterations of the "
+          "real loop body (sliced from the source on every run) for EVERY graph with up to 2 vertices / 1-2 edges (quick) and 3-4 vertices / 3-4 edges (thorough), any mask, costs, direction, "
+          "origin, destination and limit; callees (adjacency lookup, edge traversal, estimate) enter by their contracts (assume-guarantee with C15 / C07). Edge-oriented wrappers and ksp route "
+          "concatenation are not covered (two genuine defects of the edge-oriented route assembly were found by reading and confirmed natively, see DESIGN 9.4; no check raises them). "
+          "Trusted: hooks H1/H3 table models, H4 slicer, H5 override points."),
+    technique=TECH + TECH_LOOP,
 )
 CHECKS["C03"] = dict(
     text=("Kernels: the turn angle of two edges is the heading difference wrapped into -180..180 (all headings 0..360), classification is total on wrapped angles and follows the "
@@ -126,6 +137,29 @@ CHECKS["C15"] = dict(
     design_ref="DESIGN.md section 4, C15",
     note="The loader proper (CSV / gzip parsing, counts, side tables) is behind File::open and is NOT covered; Graph::out_edges / in_edges over a filled container did not return (documented attempt).",
     technique=TECH,
+)
+CHECKS["C05"] = dict(
+    text=("Decided by induction over the iterations of the real search loop (run_a_star's loop body, sliced from the current source on every run): for EVERY directed graph with up to "
+          "2 vertices / 2 edges (quick) or 3-4 vertices / 3-4 edges (thorough), every edge permission mask, cost assignment, direction, origin and optional destination, every state the loop "
+          "can reach satisfies an invariant from which CBMC derives at the loop's exits: a search without destination ends with a tree whose vertices are exactly those reachable over "
+          "permitted edges (origin excluded); a search with destination puts the destination in the tree only if it is reachable and reports 'no path' only if it is not; the only other "
+          "failure is the iteration limit. Bounded in graph size, unbounded in the number of iterations."),
+    design_ref="DESIGN.md section 9",
+    note=("Trusted: the source slicer (syntactic, fails closed), the table / queue models (hooks H1/H3), contracts of three callees (adjacency lookup = C15, traversal cost finite and > 0 = C07, "
+          "estimate >= 0 = C07) installed through hook H5, no floating-point absorption below a cost-so-far of 2^40. NOT decided: 'labelled with its least cost' (optimality), edge-oriented "
+          "searches, restrictions depending on the previous edge or on the state, termination without an iteration limit."),
+    technique="induction over loop iterations decided by Kani/CBMC SAT (base / step / exit harnesses on the sliced real loop body, symbolic graph and search state); counterexamples replayed natively",
+)
+CHECKS["C02"] = dict(
+    text=("Dijkstra (weight factor 0), vertex-oriented, edge costs independent of how the edge was reached: by induction over the iterations of the real search loop (sliced from the "
+          "current source), for EVERY directed graph with 2 vertices and 1-2 edges (quick) or 3 vertices / 3 edges (thorough), every edge mask, cost assignment, direction, origin and "
+          "destination, CBMC decides that closed vertices carry their least cost (Bellman-Ford oracle over the symbolic edge table, bit-exact), hence the destination is reached with "
+          "least cost and a search without destination labels every tree vertex with its least cost; the cost accumulated along a tree path equals the label. Partial: A* is not decided."),
+    design_ref="DESIGN.md section 9.6",
+    note=("Trusted: source slicer, table / queue models (pop returns an arbitrary maximal-priority entry), contracts of three callees (hook H5), no floating-point absorption below 2^40, the "
+          "Bellman-Ford fixpoint lemma beyond (2,2). NOT decided: A* with weight factor > 0 (haversine admissibility is trigonometry), weights / rates coming from the query (CostModel::new), "
+          "forward == reverse, edge-oriented searches, graphs beyond 3 vertices."),
+    technique="induction over loop iterations decided by Kani/CBMC SAT (Dijkstra's invariant on the sliced real loop body against a Bellman-Ford oracle, symbolic graph and search state); counterexamples replayed natively",
 )
 NOT_APPLICABLE = {
     "C01": "not built yet (planned: backtrack / orientation kernels, DESIGN section 4)",
